@@ -1,5 +1,5 @@
 (* C08 - Error recovery is transparent on success, loud on failure, and never silent. *)
-From Chum Require Import Corollaries DelimsP.
+From Chum Require Import Corollaries DelimsP RecoveryP.
 
 Theorem C08_transparent_on_success :
   forall K toks spn n x y ctx p a r a1,
@@ -50,6 +50,35 @@ Theorem C08_nested_delimiters_consumes_one_balanced_region :
     exists inner, seg toks p p' = s :: inner ++ [e] /\ bal s e others inner /\ v = vspan (spn p p').
 Proof. exact nested_delims_sound. Qed.
 
+(* skip_until consumes the fewest skip steps after which `until` matches: every skip step is taken only after `until` failed
+   at that position, and the chain ends at the first position where it matches *)
+Theorem C08_skip_until_takes_the_fewest_steps :
+  forall run skip until ctx fuel p r acce p1 ems r',
+    skip_until_sem run fuel skip until ctx p r acce = Some (Some (p1, ems), r') ->
+    exists k, skips run skip until ctx p r k p1 r'.
+Proof. exact skip_until_fewest. Qed.
+
+Theorem C08_skip_until_gives_up_only_when_skipping_fails :
+  forall run skip until ctx fuel p r acce r',
+    skip_until_sem run fuel skip until ctx p r acce = Some (None, r') ->
+    exists q ra rb, run until ctx q ra = Some (None, rb) /\ run skip ctx q rb = Some (None, r').
+Proof. exact skip_until_gives_up_only_when_skipping_fails. Qed.
+
+(* skip_then_retry_until retries the parser after each skip step, accepting only an error-free retry (any other retry is
+   abandoned and the loop goes on from after the skip), and gives up when `until` matches or skipping fails *)
+Theorem C08_skip_then_retry_accepts_only_clean_retries :
+  forall run g skip until ctx fuel p r acce v p3 ems r',
+    skip_retry_sem run fuel g skip until ctx p r acce = Some (Some (v, p3, ems), r') ->
+    retries run g skip until ctx p r v p3 r'.
+Proof. exact skip_then_retry_accepts_only_clean_retries. Qed.
+
+Theorem C08_skip_then_retry_gives_up_when_until_matches_or_skipping_fails :
+  forall run g skip until ctx fuel p r acce r',
+    skip_retry_sem run fuel g skip until ctx p r acce = Some (None, r') ->
+    exists q ra, (exists x, run until ctx q ra = Some (Some x, r')) \/
+                 (exists rb, run until ctx q ra = Some (None, rb) /\ run skip ctx q rb = Some (None, r')).
+Proof. exact skip_then_retry_gives_up. Qed.
+
 Example C08_nested_delimiters_example :
   let toks := [40; 97; 91; 98; 93; 41; 99]%N in
   sem KRich toks (fun a b => (a, b)) 30 (nested_delims 40%N 41%N [(91%N, 93%N)]) env0 0 None
@@ -70,3 +99,7 @@ Print Assumptions C08_both_fail_same_error.
 Print Assumptions C08_machine_recovers_as_specified.
 Print Assumptions C08_error_free_result_has_no_recovery_error.
 Print Assumptions C08_nested_delimiters_consumes_one_balanced_region.
+Print Assumptions C08_skip_until_takes_the_fewest_steps.
+Print Assumptions C08_skip_until_gives_up_only_when_skipping_fails.
+Print Assumptions C08_skip_then_retry_accepts_only_clean_retries.
+Print Assumptions C08_skip_then_retry_gives_up_when_until_matches_or_skipping_fails.
